@@ -106,6 +106,11 @@ func c05Check(c c05Case) []vlib.Violation {
 				if excusedTarget != "" && r.Target() == excusedTarget {
 					continue
 				}
+				// a mapping names its target without a package (the walker shows
+				// it under the first branch package): the same excuse by name
+				if excusedTarget != "" && r.Kind == "mapping" && r.Name == ps.To {
+					continue
+				}
 				if _, was := before[key]; was {
 					continue
 				}
